@@ -482,3 +482,109 @@ Section Full.
     apply (pb_loop_agrees f ffs tfs IH); auto. rewrite app_length. lia.
   Qed.
 End Full.
+
+(* ================================================================== the sequential spec succeeds only with the declarative projection *)
+Lemma bytes_ok_firstn n bs : bytes_ok bs -> bytes_ok (firstn n bs).
+Proof.
+  unfold bytes_ok. revert bs. induction n as [|n IH]; intros bs H; [constructor|]. destruct bs as [|b r]; [constructor|].
+  cbn [firstn]. inversion H; subst. constructor; auto.
+Qed.
+Lemma bytes_ok_app_r a b : bytes_ok (a ++ b) -> bytes_ok b.
+Proof. unfold bytes_ok. intros H. apply Forall_app in H. apply H. Qed.
+
+Lemma skipn_skipn' {A} (a b : nat) (l : list A) : skipn a (skipn b l) = skipn (b + a) l.
+Proof.
+  revert l. induction b as [|b IH]; intros l; [reflexivity|]. destruct l as [|x r]; [cbn; destruct a; reflexivity|]. cbn [skipn Nat.add]. apply IH.
+Qed.
+
+Section Bridge.
+  Variable d : pdefs.
+  Variable dis : bool.
+
+  Lemma pspec_loop_ok_pproj f ffs tfs :
+    (forall fi ti bs be l, bytes_ok bs -> pspec d dis f fi ti bs false be = COk l -> pproject d dis f fi ti bs = COk l) ->
+    forall sf bs be forest, bytes_ok bs -> pspec_loop dis (pspec d dis f) sf ffs tfs bs false be = COk forest ->
+    forall wf, (length bs < wf)%nat ->
+    exists fs, wire_fields wf bs = Some fs /\ pproj_fields dis (pproject d dis f) ffs tfs fs = COk forest.
+  Proof.
+    intros Hrec. induction sf as [|sf IH]; intros bs be forest Hb H wf Hwf; [discriminate|].
+    destruct wf as [|wf]; [lia|]. cbn [pspec_loop] in H.
+    pose proof (wire_tag_cases bs) as Htag. destruct (wire_tag bs) as [| | |num wt r].
+    - subst bs. inversion H; subst. exists []. split; reflexivity.
+    - destruct be; discriminate.
+    - discriminate.
+    - destruct Htag as [Hne [v [n [Ev [Hn [-> [-> [Hnum [-> Hwt]]]]]]]]].
+      set (r := skipn (Z.to_nat n) bs) in *.
+      pose proof (varint_dec_result bs v n Ev) as Hres.
+      assert (Hn1 : 1 <= n <= Z.of_nat (length bs)) by (destruct Hres as [[? ?]|[[? ?]|[? ?]]]; lia).
+      assert (Hrl : (length r < length bs)%nat) by (unfold r; rewrite skipn_length; lia).
+      assert (Hbr : bytes_ok r) by (unfold r; apply bytes_ok_skipn; exact Hb).
+      (* one step of the generic decoder *)
+      assert (Hstep : forall raw rest fs', wire_value (v mod 8) r = Some (raw, rest) -> wire_fields wf rest = Some fs' ->
+                wire_fields (S wf) bs = Some (WF (v / 8) (v mod 8) raw :: fs')).
+      { intros raw rest fs' Hv Hf. cbn [wire_fields]. destruct bs as [|b0 q]; [contradiction|]. rewrite Ev.
+        destruct (Z.ltb_spec n 0); [lia|]. destruct (Z.ltb_spec (v / 8) 1); [lia|]. destruct (Z.gtb_spec (v / 8) 2147483647); [lia|].
+        cbn [orb]. fold r. rewrite Hv, Hf. reflexivity. }
+      assert (Hskip : forall l, match wire_value (v mod 8) r with
+                                | Some (_, rest) => pspec_loop dis (pspec d dis f) sf ffs tfs rest false be
+                                | None => if be then CErr 4 else CErr 5 end = COk l ->
+                exists raw rest fs', wire_value (v mod 8) r = Some (raw, rest) /\ wire_fields wf rest = Some fs' /\
+                                     pproj_fields dis (pproject d dis f) ffs tfs fs' = COk l).
+      { intros l Hl. destruct (wire_value (v mod 8) r) as [[raw rest]|] eqn:Ewv; [|destruct be; discriminate].
+        pose proof (wire_value_split _ _ _ _ Ewv) as Hq.
+        destruct (IH rest be l ltac:(rewrite Hq in Hbr; apply (bytes_ok_app_r _ _ Hbr)) Hl wf) as [fs' [Hf Hp]]; [rewrite Hq, app_length in Hrl; lia|].
+        exists raw, rest, fs'. auto. }
+      destruct (pfind (v / 8) ffs) as [ff|] eqn:Eff.
+      2:{ destruct dis eqn:Ed; [discriminate|]. destruct (Hskip forest H) as [raw [rest [fs' [Hv [Hf Hp]]]]].
+          exists (WF (v / 8) (v mod 8) raw :: fs'). split; [apply (Hstep raw rest fs' Hv Hf)|]. cbn [pproj_fields]. rewrite Eff. exact Hp. }
+      destruct (pfind (v / 8) tfs) as [tf|] eqn:Etf.
+      2:{ destruct (Hskip forest H) as [raw [rest [fs' [Hv [Hf Hp]]]]].
+          exists (WF (v / 8) (v mod 8) raw :: fs'). split; [apply (Hstep raw rest fs' Hv Hf)|]. cbn [pproj_fields]. rewrite Eff, Etf. exact Hp. }
+      destruct (negb (pf_kind ff =? pf_kind tf)) eqn:Ek; [discriminate|].
+      destruct (pf_kind ff =? K_MESSAGE) eqn:Em.
+      + destruct (Z.eqb_spec (v mod 8) 2) as [E2|]; cbn [negb] in H; [|discriminate].
+        destruct (varint_dec r) as [len m] eqn:Evr. destruct (Z.ltb_spec m 0); [destruct be; discriminate|].
+        destruct (Z.geb_spec len (2 ^ 63)); [discriminate|].
+        pose proof (varint_dec_result r len m Evr) as Hresr.
+        assert (Hm1 : 1 <= m <= Z.of_nat (length r)) by (destruct Hresr as [[? ?]|[[? ?]|[? ?]]]; lia).
+        set (r2 := skipn (Z.to_nat m) r) in *.
+        destruct (Z.leb_spec len (Z.of_nat (length r2))) as [Hfit|].
+        2:{ destruct be; [|discriminate]. destruct (pspec d dis f (pf_sub ff) (pf_sub tf) r2 true true); discriminate. }
+        destruct (pspec d dis f (pf_sub ff) (pf_sub tf) (firstn (Z.to_nat len) r2) false _) as [kids|] eqn:Ekids; [|discriminate].
+        destruct (pspec_loop dis (pspec d dis f) sf ffs tfs (skipn (Z.to_nat len) r2) false be) as [l|] eqn:El; [|discriminate].
+        inversion H; subst forest.
+        assert (Hlen0 : 0 <= len) by (pose proof (varint_dec_value r len m Hbr Evr); lia).
+        assert (Hr2l : length r2 = (length r - Z.to_nat m)%nat) by (unfold r2; apply skipn_length).
+        assert (Hwv : wire_value (v mod 8) r = Some (firstn (Z.to_nat (m + len)) r, skipn (Z.to_nat len) r2)).
+        { unfold wire_value. rewrite E2. cbn [Z.eqb Pos.eqb]. rewrite Evr. destruct (Z.ltb_spec m 0); [lia|].
+          unfold take_n. destruct (Z.ltb_spec (m + len) 0); [lia|]. destruct (Z.gtb_spec (m + len) (Z.of_nat (length r))); [lia|].
+          cbn [orb]. f_equal. f_equal. unfold r2. rewrite skipn_skipn'. f_equal. lia. }
+        assert (Hpay : payload (firstn (Z.to_nat (m + len)) r) = firstn (Z.to_nat len) r2).
+        { unfold payload.
+          assert (Hpre : varint_dec (firstn (Z.to_nat (m + len)) r) = (len, m)).
+          { apply (varint_dec_prefix _ (skipn (Z.to_nat (m + len)) r)); [rewrite firstn_skipn; exact Evr|lia|rewrite firstn_length; lia]. }
+          rewrite Hpre. unfold r2. rewrite skipn_firstn_comm. f_equal. lia. }
+        destruct (IH _ be l ltac:(unfold r2; apply bytes_ok_skipn, bytes_ok_skipn; exact Hbr) El wf) as [fs' [Hf Hp]]; [rewrite !skipn_length; lia|].
+        exists (WF (v / 8) (v mod 8) (firstn (Z.to_nat (m + len)) r) :: fs'). split; [apply (Hstep _ _ fs' Hwv Hf)|].
+        cbn [pproj_fields]. rewrite Eff, Etf, Ek, Em. destruct (Z.eqb_spec (v mod 8) 2); [|contradiction]. cbn [negb].
+        unfold r2 in *. rewrite Hpay. rewrite (Hrec _ _ _ _ _ ltac:( apply bytes_ok_firstn, bytes_ok_skipn; exact Hbr) Ekids). rewrite Hp. reflexivity.
+      + destruct (wire_value (v mod 8) r) as [[raw rest]|] eqn:Ewv; [|destruct be; discriminate].
+        destruct (pspec_loop dis (pspec d dis f) sf ffs tfs rest false be) as [l|] eqn:El; [|discriminate]. inversion H; subst forest.
+        pose proof (wire_value_split _ _ _ _ Ewv) as Hq.
+        destruct (IH rest be l ltac:(rewrite Hq in Hbr; apply (bytes_ok_app_r _ _ Hbr)) El wf) as [fs' [Hf Hp]]; [rewrite Hq, app_length in Hrl; lia|].
+        exists (WF (v / 8) (v mod 8) raw :: fs'). split; [apply (Hstep raw rest fs' eq_refl Hf)|].
+        cbn [pproj_fields]. rewrite Eff, Etf, Ek, Em, Hp. reflexivity.
+  Qed.
+
+  (* whenever the sequential spec succeeds on a complete frame, the declarative projection (decode the level, keep the numbers
+     declared by both schemas, project message-kind payloads) succeeds with the SAME tree: all exactness theorems about
+     pproj_fields hold for what the walker outputs *)
+  Theorem pspec_ok_pproject : forall fuel fi ti bs be l, bytes_ok bs ->
+    pspec d dis fuel fi ti bs false be = COk l -> pproject d dis fuel fi ti bs = COk l.
+  Proof.
+    induction fuel as [|f IH]; intros fi ti bs be l Hb H; [discriminate|]. cbn [pspec] in H. cbn [pproject].
+    destruct (pmsg_def d fi) as [ffs|]; [|discriminate]. destruct (pmsg_def d ti) as [tfs|]; [|discriminate].
+    destruct (pspec_loop_ok_pproj f ffs tfs IH _ bs be l Hb H (S (length bs)) ltac:(lia)) as [fs [Hf Hp]].
+    rewrite Hf. exact Hp.
+  Qed.
+End Bridge.
